@@ -1309,10 +1309,7 @@ def _(g):
 
 @gen('awkward_ListOffsetArray_reduce_nonlocal_outstartsstops_64')
 def _(g):
-    while True:
-        n, off, p, ol, mc, nl, nc, npar, dist = _nonlocal(g)
-        if ol > 0 and mc > 0:
-            break
+    n, off, p, ol, mc, nl, nc, npar, dist = _nonlocal(g)
     gaps, last = [], -1
     for x in p:
         if last < x:
